@@ -28,6 +28,7 @@ type Profile struct {
 	Ext           bool
 	Odd           bool    // schemas that are legal but unusual (no body, clashes, nested targetables)
 	NoSchema      bool    // path context without a schema
+	JSONFiles     bool // (with JSONTwin) some files of the world are written in HCL JSON
 	Typing        bool // some top-level items are names still being typed
 	ManyBlocks    bool // long interleaved runs of nested blocks
 	Builtins      bool // the server adds range-less built-in targets (path.module ...)
